@@ -151,6 +151,12 @@ func (e *Encoder) SetMaxDynamicTableSize(v uint32) {
 func (e *Encoder) SetMaxDynamicTableSizeLimit(v uint32) {
 	e.maxSizeLimit = v
 	if e.dynTab.maxSize > v {
+		// The table is evicted down to v right here, so v takes part in the
+		// minimum that the next "Header Table Size Update" must signal
+		// (RFC 7541 section 4.2), as in SetMaxDynamicTableSize.
+		if v < e.minSize {
+			e.minSize = v
+		}
 		e.tableSizeUpdate = true
 		e.dynTab.setMaxSize(v)
 	}
